@@ -9,8 +9,8 @@ def check(tree, rep, tier='quick', seed=0):
     rep.explanation = ('Premises of order independence decided structurally: line definitions are pure (L1, L2), stores are write-once and '
                        'read through one gate (K6, K7, K8), nothing in the package consults time, randomness, the environment, object identity or '
                        'the iteration order of a set (K16 over the core and every form module), and a prompted answer is written into the same store '
-                       'entry the file populates and read back through the same validation gate (K8, K11, K18).')
-    rep.rule_text = 'obligation = one rule instance (L1 L2 K6 K7 K8 K11 K16 K18) on one construct'
+                       'entry the file populates and read back through the same validation gate (K8, K11, K18); the failure report prints every item of every diagnostic, so its content does not depend on the order in which lines were attempted (K27).')
+    rep.rule_text = 'obligation = one rule instance (L1 L2 K6 K7 K8 K11 K16 K18 K27) on one construct'
     rep.exhaustive = True
     rep.assumptions = ['NOT decided: independence from the attempt order for all schedules additionally needs "no waiter is lost" (C06, not decided by this family); the schedule-permutation hook of the property is a dynamic device and is not used']
     core = get_core(tree)
@@ -24,6 +24,7 @@ def check(tree, rep, tier='quick', seed=0):
     R.k11_input_gate(core, rep)
     R.k16_determinism(core, rep, extra_modules=forms)
     R.k18_cli_store_identity(core, rep)
+    R.k27_complete_diagnostics(core, rep)
     from .c17 import shared_rule
     shared_rule(an.cat, rep, rule='R17.7')
     rep.floor('core rule obligations', sum(v[0] for k, v in rep.rules.items() if k.startswith('K')), 100)
